@@ -13,6 +13,7 @@ from proj import retry as proj
 ID = "C06"
 LEAN_MODULES = ["MoreExec.Props.C06"]
 THEOREMS = [
+    "MoreExec.Retry.C06_source_protocol",
     "MoreExec.Retry.C06_retry_stops",
     "MoreExec.Retry.C06_terminal_is_forever",
     "MoreExec.Retry.C06_no_submit_when_done",
